@@ -138,6 +138,16 @@ def eval_call(I: Interp, node: ast.Call, fr: Frame):
             v = I.dict_get(SV(d.t, dty if dty.k == "dict" else T.DICT()), k)
             st.assume_wt(v)
             return v
+        if n == "same_dict":  # same_dict(d): the dict object d has the contents (keys, values, order) it had in the old state
+            d = I.to_sv(I.ev(node.args[0], fr))
+            old_h = st.old_stack[-1] if st.old_stack else st.entry_heap
+            r = smt.rid(d.t)
+            parts = []
+            for k in ("dhas", "dget", "dsz", "dkeys"):
+                cur, was = st.arr(k), old_h.get(k, st.entry_heap.get(k))
+                if was is not None and not z3.eq(cur, was):
+                    parts.append(z3.Select(cur, r) == z3.Select(was, r))
+            return I.as_bool_sv(z3.And(*parts) if parts else z3.BoolVal(True))
         if n == "fresh":  # fresh(x): x was allocated during this call
             v = I.to_sv(I.ev(node.args[0], fr))
             base = st.fresh_base[-1] if st.fresh_base else st.alloc_entry
@@ -617,6 +627,8 @@ def apply_contract(I: Interp, con: Contract, finfo: FuncInfo, selfv, args, kwarg
     rty = return_type(finfo)
     result = fresh_of_type(I, f"ret_{finfo.name}", rty)
     sf.locals["result"] = result
+    for f in preserve_formulas(I, con.preserves, sf, old):
+        st.assume(f)
     st.old_stack.append(old)
     st.fresh_base.append(old_alloc)
     try:
@@ -749,6 +761,56 @@ def _havoc(I: Interp, modifies, sf: Frame):
             st.setf(smt.rid(base.t), tree.attr, st.fresh("hv_" + tree.attr, Val))
             continue
         raise Refuse(f"modifies clause {m}")
+
+
+def preserve_formulas(I: Interp, entries, sf: Frame, old: dict):
+    """Formulas stating that the listed locations have in the current heap the value they had in `old`.
+    Entry syntax as in modifies: `x.attr` (one location), `Class.attr` (all objects of the class), `x[*]` / `x{*}`
+    (contents of one list / dict, the reference being evaluated in the old state)."""
+    st = I.st
+    out = []
+    for m in entries:
+        m = m.strip()
+        if m.endswith("[*]") or m.endswith("{*}"):
+            saved = st.heap
+            st.heap = dict(old)
+            try:
+                base = ev_spec(I, m[:-3], sf)
+            finally:
+                for k2, v2 in st.heap.items():
+                    if not k2.startswith("__"):
+                        saved.setdefault(k2, v2)
+                st.heap = saved
+            r = smt.rid(base.t)
+            keys = ("lel", "llen") if m.endswith("[*]") else ("dhas", "dget", "dsz", "dkeys")
+            for k in keys:
+                cur, was = st.arr(k), old.get(k, st.entry_heap.get(k))
+                if was is not None and not z3.eq(cur, was):
+                    out.append(z3.Select(cur, r) == z3.Select(was, r))
+            continue
+        tree = parse_expr(m)
+        if not isinstance(tree, ast.Attribute):
+            raise Refuse(f"preserves clause {m}")
+        key = "f:" + tree.attr
+        cur, was = st.arr(key), old.get(key, st.entry_heap.get(key))
+        if was is None or z3.eq(cur, was):
+            continue
+        ci = class_named(tree.value, sf)
+        if ci is not None:
+            rr = z3.Int("r!pres")
+            out.append(z3.ForAll([rr], z3.Implies(st.subclass_pred(z3.Select(st.arr("cls"), rr), ci), z3.Select(cur, rr) == z3.Select(was, rr))))
+        else:
+            saved = st.heap
+            st.heap = dict(old)
+            try:
+                base = ev_spec(I, ast.unparse(tree.value), sf)
+            finally:
+                for k2, v2 in st.heap.items():
+                    if not k2.startswith("__"):
+                        saved.setdefault(k2, v2)
+                st.heap = saved
+            out.append(z3.Select(cur, smt.rid(base.t)) == z3.Select(was, smt.rid(base.t)))
+    return out
 
 
 def class_named(head, sf: Frame):
